@@ -292,7 +292,7 @@ fn build(tier: &str) -> C16 {
     let thorough = tier == "thorough";
     let o = ops();
     let mut cases = Vec::new();
-    let depth = if thorough { 4 } else { 3 };
+    let depth = 4;
     for start in 0..4 {
         let mut stack: Vec<Vec<Op>> = vec![vec![]];
         for _ in 0..depth {
